@@ -57,6 +57,8 @@ func c14MovementCase(entries []string, kind string, unroll int) *Case {
 			st.Name = A(atoms.New(ClsIdent, "step", ""))
 		case "END":
 			st.Name = L("step_end")
+		default:
+			st.Name = L(strings.TrimPrefix(e, "lit:"))
 		}
 		if strings.Contains(e, "*N") {
 			m := A(atoms.New(ClsNum, "mult", ""))
@@ -336,6 +338,8 @@ func c14MartCase(entries []string, withConst bool) *Case {
 	for _, e := range entries {
 		if e == "END" {
 			items = append(items, &Step{Name: L("ITEM_NONE")})
+		} else if strings.HasPrefix(e, "lit:") {
+			items = append(items, &Step{Name: L(e[4:])})
 		} else {
 			items = append(items, &Step{Name: A(atoms.New(ClsIdent, "item", ""))})
 		}
@@ -403,6 +407,14 @@ func RunC14(env *Env, rep *Report) {
 		if len(l) <= 3 {
 			cases = append(cases, c14MartCase(l, true))
 		}
+	}
+	// names that differ from the terminator only in letter case are ordinary
+	// items / steps
+	for _, sp := range []string{"Item_None", "item_none", "ITEM_NONe"} {
+		cases = append(cases, c14MartCase([]string{"i", "lit:" + sp, "i"}, false), c14MartCase([]string{"lit:" + sp}, false))
+	}
+	for _, sp := range []string{"Step_End", "STEP_END", "step_enD"} {
+		cases = append(cases, c14MovementCase([]string{"s", "lit:" + sp, "s"}, "movement", unroll), c14MovementCase([]string{"lit:" + sp, "s"}, "moves", 4))
 	}
 	for _, tm := range []struct {
 		steps []string
